@@ -337,6 +337,24 @@ def eval_case(ctx, prop, spec, case, data, cand, cs, ncols, lines, checks):
     sample["result"] = dict(indices=q, c01=p1 or shape_problem or "ok", c02=p2 or "ok")
     ctx.case((spec.name, case["mode"], b, seed, case["n"]), nontriv, sample=sample)
     U = r["U"]
+    if prop == "C01" and seed % 3 == 0 and not shape_problem:
+        # the statement is about query(X, y, candidates, batch_size): the path without utilities must select the same
+        # samples as the path with utilities (a freshly built strategy with the same seed)
+        try:
+            with alarm(30), warnings.catch_warnings(), np.errstate(all="ignore"):
+                warnings.simplefilter("ignore")
+                q_plain = spec.make(seed).query(data["X"], data["y"], candidates=None if cand is None else np.array(cand).copy(), batch_size=b,
+                                                **spec.kwargs(data, seed))
+            ctx.count("without_utilities_compared")
+            q_plain_l, sp2 = as_index_list(q_plain)
+            if sp2 or q_plain_l != q:
+                ctx.violate(finding_key("C01", spec, "selection-differs-without-utilities"),
+                            f"{spec.name}.query: return_utilities=False selects {q_plain_l}{' (' + sp2 + ')' if sp2 else ''}, with utilities {q}", case)
+        except Timeout:
+            ctx.violate(finding_key("C01", spec, "non-termination"), f"{spec.name}.query(return_utilities=False) did not terminate", case)
+        except Exception as e:  # noqa: BLE001
+            ctx.violate(finding_key("C01", spec, "raises:" + type(e).__name__),
+                        f"{spec.name}.query(return_utilities=False) raised {type(e).__name__}: {str(e)[:100]} (the call with utilities succeeds)", case)
     if prop == "C01":
         if shape_problem:
             ctx.violate(finding_key("C01", spec, "index-shape"), f"{spec.name}.query: {shape_problem}", case)
